@@ -562,6 +562,9 @@ afterR8:
 						at = append(at, ch[0])
 					}
 				}
+				if len(at) == 0 && isNewHelper(w.Parent()) {
+					at = []ssa.Instruction{w} // the reset loop itself sits in the new helper
+				}
 			}
 			for _, site := range at {
 				// the innermost loop around the reset
@@ -569,6 +572,15 @@ afterR8:
 				for _, li := range loops {
 					if li.Blocks[site.Block()] && (inner == nil || len(li.Blocks) < len(inner.Blocks)) {
 						inner = li
+					}
+				}
+				if inner == nil && w.Parent() != h && isNewHelper(w.Parent()) {
+					// the whole reset loop moved into the helper: judge it there
+					site = w
+					for _, li := range naturalLoops(w.Parent()) {
+						if li.Blocks[site.Block()] && (inner == nil || len(li.Blocks) < len(inner.Blocks)) {
+							inner = li
+						}
 					}
 				}
 				if inner == nil {
